@@ -94,6 +94,9 @@ func runSolver(ctx context.Context, s SolverCfg, file string, timeoutS int) (str
 func firstStatus(out string) string {
 	for _, l := range strings.Split(out, "\n") {
 		l = strings.TrimSpace(l)
+		if strings.HasPrefix(l, "(error") {
+			return "error" // an error before the verdict invalidates it
+		}
 		switch l {
 		case "sat", "unsat", "unknown", "timeout":
 			return l
@@ -143,7 +146,11 @@ func (vc *VC) Solve(dir string, quickMs int, raceS int) {
 			}
 		} else if strings.HasPrefix(l, "(error") {
 			vc.note("solver error in prelude: %s", l)
+			vc.preludeError = l
 		}
+	}
+	if vc.preludeError != "" {
+		got = map[int]string{} // nothing the batch run said can be trusted
 	}
 	per := secs / float64(len(obls))
 	var wg sync.WaitGroup
